@@ -9,9 +9,11 @@ import WpModel.Drive.ListHints
 import WpModel.Drive.ContentFns
 import WpModel.Drive.ListStyleType
 import WpModel.Drive.MarginCounters
+import WpModel.Drive.PageStd
 
 def main : IO Unit := Wp.Drive.runDriver
   [Wp.Drive.Counters.handle, Wp.Drive.CounterScope.handle, Wp.Drive.Repaginate.handle,
    Wp.Drive.PageCounters.handle, Wp.Drive.TargetText.handle, Wp.Drive.CounterDescriptors.handle,
    Wp.Drive.ListHints.handle, Wp.Drive.ContentFns.handle,
-   Wp.Drive.ListStyleType.handle, Wp.Drive.MarginCounters.handle]
+   Wp.Drive.ListStyleType.handle, Wp.Drive.MarginCounters.handle,
+   Wp.Drive.PageStd.handle]
